@@ -8,7 +8,7 @@ MANIFEST_NOTES = ("Every check is `bin/vcheck <id> quick|thorough`; VERIF_SEED s
 CHECKS["C19"] = {
     "pkg": "./c19", "run": "^TestC19$", "level": "exploration",
     "technique": "runtime monitor: sorted-multiset reference model checked after every queue operation over seeded operation sequences",
-    "level_text": "Differential monitor of the real utils.PriorityQueue against a sorted-multiset model over tens of thousands (quick) to millions (thorough) of seeded operation sequences in which source and reversed queues are both kept in use; held means no divergence on any observed sequence.",
+    "level_text": "Differential monitor of the real utils.PriorityQueue against a sorted-multiset model over tens of thousands (quick) to millions (thorough) of seeded operation sequences in which source and reversed queues are both kept in use; held means no divergence on any observed sequence. Every third case builds its first queue from 1-7 initial items handed to the constructor in arbitrary order.",
     "level_note": "Sampled sequences only (sizes up to ~400 items); container/heap trusted; single goroutine (the queue is not meant to be shared).",
     "shards": {"quick": 4, "thorough": 16},
     "timeout": {"quick": 300, "thorough": 1800},
@@ -22,7 +22,7 @@ CHECKS["C19"] = {
 CHECKS["C01"] = {
     "pkg": "./c01", "run": "^TestC01", "level": "exploration", "mem_gb": {"quick": 0, "thorough": 0},
     "technique": "runtime monitor: reference map id->(vector,metadata) checked against every Search result over seeded insert/remove/update/snapshot histories",
-    "level_text": "Reference-model monitor over thousands (quick) to hundreds of thousands (thorough) of seeded histories with generated index parameters; every Search result is checked for liveness, metadata, bit-exact score, order, uniqueness, size and non-emptiness. Held means no observed result violated the property.",
+    "level_text": "Reference-model monitor over thousands (quick) to hundreds of thousands (thorough) of seeded histories with generated index parameters; every Search result is checked for liveness, metadata, bit-exact score, order, uniqueness, size and non-emptiness. Held means no observed result violated the property. The dataset-level part (4 quick / 32 thorough clusters) issues single and batch inserts, updates and removes through any node and runs the same oracle on Dataset.Search; a round whose replicas are at rest without reaching the reference state is judged by the oracle (what a search returns then is stale or lost data).",
     "level_note": "Sequential histories on one index, plus a smaller number of write histories through the Dataset API of in-process clusters (1..3 nodes, replicas quiescent before each search round) judged by the same oracle; concurrency is C13, exactness of the dataset merge is C09; NaN-producing inputs excluded (C12); the index dump hook is used only to classify failures.",
     "shards": {"quick": 8, "thorough": 16},
     "timeout": {"quick": 600, "thorough": 3000},
@@ -108,7 +108,7 @@ CHECKS["C15"] = {
 CHECKS["C16"] = {
     "pkg": "./c16", "run": "^TestC16$", "level": "exploration",
     "technique": "runtime monitor: structural check of every placement proposed by the real DatasetManager.Create/Allocator over a scripted raft.Group, plus fixed-threshold independence and spread statistics",
-    "level_text": "Monitor on the real Create path (allocator + cluster connection) with a scripted raft group that captures the proposal bytes: for every N in 1..16 x R in 1..8 x P in {1,2,3,8,64} (all 640 configurations, 30 creates each quick / 400 thorough) each partition must get exactly min(R,N) distinct member nodes; independence is decided with fixed thresholds (an all-identical placement where its probability is <= 1e-12; pair-coincidence rate and per-node load inside Hoeffding bands with delta = 1e-10).",
+    "level_text": "Monitor on the real Create path (allocator + cluster connection) with a scripted raft group that captures the proposal bytes: for every N in 1..16 x R in 1..8 x P in {1,2,3,8,64} (all 640 configurations, 30 creates each quick / 400 thorough) each partition must get exactly min(R,N) distinct member nodes; independence is decided with fixed thresholds (an all-identical placement where its probability is <= 1e-12; pair-coincidence rate and per-node load inside Hoeffding bands with delta = 1e-10). After the static matrix every configuration goes through a membership history (24 quick / 120 thorough steps: removals of nodes that were dialled before and of nodes that never were, joins), with creates for R in {1,3,8} after every step: each placement must use exactly min(R, N) distinct nodes that are members at that moment.",
     "level_note": "The configurations are enumerated exhaustively within the stated ranges; random seeds of the shuffle are sampled (global math/rand seeded from VERIF_SEED); statistical tests have a per-run false-alarm probability below 1e-7.",
     "shards": {"quick": 8, "thorough": 16},
     "timeout": {"quick": 300, "thorough": 1800},
@@ -162,7 +162,7 @@ CHECKS["C10"] = {
     "mem_gb": {"quick": 0, "thorough": 0},
     "pkg": "./c10", "run": "^TestC10$", "level": "exploration",
     "technique": "runtime monitor: routing function evaluated over ids x every modulus 1..1024 (range, repeatability, equality across fresh processes) + placement observed on an in-process cluster after writes through every entry node and API path",
-    "level_text": "Pure part: 20k (quick) / 200k (thorough) ids (random, all-zero, all-ones, every single bit, halves swapped) x every n in 1..1024: result in range, identical on repeated and concurrent evaluation, identical table digest in two fresh processes. System part: real 3-node clusters with 1/2/5/8 partitions and replication 1-2; each id is written through every entry node and insert path, updated from a second node and removed from a third through single and batch paths, and after each step exactly the replicas of partition route(id, n) hold it and no other partition does.",
+    "level_text": "Pure part: 20k (quick) / 200k (thorough) ids (random, all-zero, all-ones, every single bit, halves swapped) x every n in 1..1024: result in range, identical on repeated and concurrent evaluation, identical table digest in two fresh processes. System part: real 3-node clusters with 1/2/5/8 partitions and replication 1-2; each id is written through every entry node and insert path, updated from a second node and removed from a third through single and batch paths, and after each step exactly the replicas of partition route(id, n) hold it and no other partition does. Batches of 8-24 full-entropy ids spanning partitions are inserted, updated and removed, each step through a different node, and every id must be held by its owner only.",
     "level_note": "Ids are sampled; the moduli 1..1024 are enumerated completely; the system part samples topologies (replica choice for proxied writes is random inside the code under test).",
     "shards": {"quick": 5, "thorough": 12},
     "timeout": {"quick": 900, "thorough": 3400},
@@ -242,7 +242,7 @@ CHECKS["C18"] = {
     "pkg": "./c18", "run": "^TestC18$", "level": "exploration",
     "mem_gb": {"quick": 0, "thorough": 0},
     "technique": "runtime monitor: bounded progress of catalogue/membership calls on in-process real servers under join/remove/re-join bursts interleaved with create/delete, a restart replay, and membership churn behind a node-change handler that can never finish; a structural wait-for-cycle detector over goroutine dumps (same goroutines parked in the cycle for more than a minute) is the deciding criterion on a stall",
-    "level_text": "Real 3- and 4-node clusters in one process. Family A: under-replicated datasets are created (so the allocator itself proposes catalogue changes), then node 3 joins, is removed and re-joins 2-4 times while datasets are created and deleted concurrently from both other nodes, with scheduling noise at the allocator's lock/hand-over points; then a node with existing datasets is restarted (replay burst) and must answer List and apply a marker. Family B (one case in twelve): a replica that leads a two-replica partition group dies and is removed from the cluster, so the surviving replica's node-change handler waits for a leader that cannot be elected; node 4 then joins and leaves 6-8 times (12-16 notifications, more than the notification channel held) and a catalogue entry created afterwards must be applied on both live members. Family C (one case in twelve): the address book's notification contract on its own - 40 (quick) / 120 (thorough) seeded scripts of change bursts and single subscriber steps around the channel's capacity; a membership call parked in a channel send below the notification code while the subscriber is stalled is a violation, and every change must be delivered exactly once, in order. A stall in A/B is a violation only if the goroutine dumps show one of the control plane's lock-and-channel wait-for cycles with every goroutine of the cycle parked in one uninterrupted wait for more than a minute (longer than every bounded wait of the control plane), or a ready-loop goroutine parked that long inside an apply callback; any other stall is inconclusive.",
+    "level_text": "Real 3- and 4-node clusters in one process. Family A: under-replicated datasets are created (so the allocator itself proposes catalogue changes), then node 3 joins, is removed and re-joins 2-4 times while datasets are created and deleted concurrently from both other nodes, with scheduling noise at the allocator's lock/hand-over points; then a node with existing datasets is restarted (replay burst) and must answer List and apply a marker. Family B (one case in twelve): a replica that leads a two-replica partition group dies and is removed from the cluster, so the surviving replica's node-change handler waits for a leader that cannot be elected; node 4 then joins and leaves 6-8 times (12-16 notifications, more than the notification channel held) and a catalogue entry created afterwards must be applied on both live members. Family C (one case in twelve): the address book's notification contract on its own - 400 (quick) / 3000 (thorough) seeded scripts of change bursts and single subscriber steps around the channel's capacity; a membership call parked in a channel send below the notification code while the subscriber is stalled is a violation, and every change must be delivered exactly once, in order. A stall in A/B is a violation only if the goroutine dumps show one of the control plane's lock-and-channel wait-for cycles with every goroutine of the cycle parked in one uninterrupted wait for more than a minute (longer than every bounded wait of the control plane), or a ready-loop goroutine parked that long inside an apply callback; any other stall is inconclusive.",
     "level_note": "Interleavings are sampled, not enumerated; wall clock only triggers the dump analysis, the verdict is structural. Cycles are recognised by frame names of the allocator, catalogue and address-book code; a wedge of a different shape is reported as inconclusive, not as a violation.",
     "shards": {"quick": 6, "thorough": 16},
     "timeout": {"quick": 1200, "thorough": 3400},
